@@ -1,6 +1,7 @@
 //! Correspondence harness for fixed-buffer (blocking crate).  Runs the real code and
 //! prints one line per explored case for the Lean driver (`fbvdriver`).
 mod df;
+mod replay;
 mod t1;
 mod util;
 use std::io::Write as _;
@@ -29,6 +30,11 @@ macro_rules! walk_sizes {
     ($rng:expr, $walks:expr, $steps:expr, $w:expr, $tot:expr, $($n:literal),*) => {{
         $( for _ in 0..$walks { $tot += t1::walk::<$n>(&mut $rng, $steps, &mut $w); } )*
     }};
+}
+
+/// replay of scenario kinds added by later modules
+pub fn replay_other(_line: &str, _w: &mut impl std::io::Write) -> bool {
+    false
 }
 
 fn main() {
@@ -72,6 +78,7 @@ fn main() {
             eprintln!("STAT t1_total states={} transitions={} capped={} walk_transitions={}", tot.0, tot.1, tot.2, wt);
         }
         "df" => df::run(thorough, seed, &mut w),
+        "replay" => replay::run(&mut w),
         _ => {
             eprintln!("usage: fbharness t1 [--tier quick|thorough] [--seed N]");
             std::process::exit(2);
